@@ -242,6 +242,22 @@ APPEND(skip_lane_copy_,i):
         shl     WORD(%%LANE), 5 ;; ks stored at 32 byte offsets
         movdqa  [state + _snow3g_ks + %%LANE], %%TMP_XMM_0
         movdqa  [state + _snow3g_ks + 16 + %%LANE], %%TMP_XMM_0
+
+        ;; last job of the manager handed back: clear what the initialization left behind,
+        ;; the LFSR & FSM state of all lanes and the keystream generated for lanes without a job
+        cmp     qword [state + _snow3g_lanes_in_use], 0
+        jne     %%_lanes_still_in_use_uia2
+%assign i 0
+%rep (16 + 3)
+        movdqa  [state + _snow3g_args_LFSR_0 + i*64], %%TMP_XMM_0
+%assign i (i + 1)
+%endrep
+%assign i 0
+%rep 8
+        movdqa  [state + _snow3g_ks + i*16], %%TMP_XMM_0
+%assign i (i + 1)
+%endrep
+%%_lanes_still_in_use_uia2:
 %endif
 
         jmp     %%return_uia2
